@@ -206,7 +206,7 @@ Proof.
   unfold dstep. rewrite Hd. reflexivity.
 Qed.
 
-(* == block c11 (needs test_shutdown script_shutdown term_shutdown leak_shutdown delay_shutdown term_expiry) == *)
+(* == block c11 (needs test_shutdown script_shutdown term_shutdown leak_shutdown delay_shutdown delay_cancel term_expiry) == *)
 Lemma source_shutdown_running script cfg s q :
   ph s = PRunning -> reaped s = false ->
   exists s', interp_unit arm_table script cfg s (RShutdown q)
@@ -253,6 +253,36 @@ Lemma source_shutdown_ends_delay d q :
 Proof.
   intros Hw Hd. rewrite (bridge_delay_shutdown d (RShutdown q) Hw eq_refl).
   unfold dstep. rewrite Hd. reflexivity.
+Qed.
+
+(* Both cancel arms of the retry-delay loop -- Shutdown(_) and OtherCancel (what the dispatcher sends a unit that reports
+   a failed attempt after the run was cancelled: its shutdown request was consumed while the process was still being
+   run, terminated or drained) -- break out of the loop: the wait is over at once, no clock moves, nothing is sent. *)
+Lemma source_delay_cancel_arms d r :
+  dwf d -> d_done d = false -> (r = ROtherCancel \/ exists q, r = RShutdown q) ->
+  interp_delay arm_table d r =
+  Some (Ok ({| d_ck := d_ck d; d_done := true; d_cancelled := true |}, [])).
+Proof.
+  intros Hw Hd [->|[q ->]].
+  - rewrite (bridge_delay_cancel d ROtherCancel Hw eq_refl). unfold dstep. rewrite Hd. reflexivity.
+  - rewrite (bridge_delay_shutdown d (RShutdown q) Hw eq_refl). unfold dstep. rewrite Hd. reflexivity.
+Qed.
+
+(* ... so a unit that is waiting out a retry delay leaves it at once and asks the dispatcher whether the next attempt
+   may start (which a cancelled run refuses): it does not sit out the delay with no process running. In the model: *)
+Lemma model_delay_cancel_leaves_delay tbl c s d r :
+  l_ph s = LDelay d -> d_done d = false -> (r = ROtherCancel \/ exists q, r = RShutdown q) ->
+  lstep tbl c s (LU (Req r)) = Ok (with_lph s LAwaitRetry, [LRetryStarted (l_k s + 1)]).
+Proof.
+  intros Hl Hd [->|[q ->]]; unfold lstep; rewrite Hl; cbn [devent_of]; unfold dstep; rewrite Hd; reflexivity.
+Qed.
+(* ... and with the arms as the source has them: *)
+Lemma source_delay_cancel_leaves_delay c s d r :
+  l_ph s = LDelay d -> dwf d -> d_done d = false -> (r = ROtherCancel \/ exists q, r = RShutdown q) ->
+  lstep_src pause_table arm_table c s (LU (Req r)) =
+  Some (Ok (with_lph s LAwaitRetry, [LRetryStarted (l_k s + 1)])).
+Proof.
+  intros Hl Hw Hd Hr. unfold lstep_src. rewrite Hl, (source_delay_cancel_arms d r Hw Hd Hr). reflexivity.
 Qed.
 
 (* == block c12 (needs test_info script_info term_info leak_info delay_info idle test_stop test_cont script_stop script_cont term_stop term_cont leak_stop leak_cont delay_stop delay_cont) == *)
